@@ -143,7 +143,7 @@ def r192(prog, chk):
     if ok:
         a = ctor[0].args[fields.index("copy_feature_text")]
         ds = prog.reaching(fd, a.id, a) if isinstance(a, ast.Name) else []
-        ok = len(ds) == 1 and isinstance(ds[0].binder, ast.AnnAssign) and T(ds[0].binder.annotation) == "str" and "features.text" in T(ds[0].binder.value)
+        ok = len(ds) == 1 and getattr(ds[0].binder, "ann", None) is not None and T(ds[0].binder.ann) == "str" and "features.text" in T(ds[0].binder.value)
         detail = T(ds[0].binder, 80) if ds else ""
     chk.ob("R19.2", f"{fd.short}|copy_feature_text is the default source's feature text (str)", ok, where(fd), detail=detail, nontrivial=False,
            message="copy_feature_text is no longer a plain string")
